@@ -19,6 +19,8 @@ from harness import probes
 PROP = "C03"
 TARGETS = ["IbicusModel.Props.C03"]
 GEN = ["Debiasers"]
+TARGETS += ["IbicusModel.Lemmas.GenDebWin"]  # tier A of the per-window transfer functions (CDFt, ECDFM, QDM, QM, SDM absolute): the audit imports it
+GEN += ["DebWin"]  # Gen.DebWin: dataflow programs extracted by translator/extract_debiasers.py
 # the configurations of harness/debiasers_corr.CONFIGS whose window functions the C03 theorems are about
 CORR_CONFIGS = ["LS-additive", "LS-multiplicative", "DC-additive", "DC-multiplicative", "QM-parametric-additive",
                 "QM-parametric-multiplicative", "QM-parametric-no_detrending", "ECDFM",
@@ -109,6 +111,22 @@ def tie_free(*arrs):
     return all(np.unique(a).size == a.size for a in arrs)
 
 
+SAMPLINGS = ["monthly", "dekad", "weekly", "pentad"]
+
+
+def thin(dates, how):
+    """a record coarser than daily: the 15th of every month, the 5th / 15th / 25th, every 7th / 5th day of the period"""
+    if how == "monthly":
+        return np.array([d for d in dates if d.day == 15], dtype=object)
+    if how == "dekad":
+        return np.array([d for d in dates if d.day in (5, 15, 25)], dtype=object)
+    if how == "weekly":
+        return dates[::7]
+    if how == "pentad":
+        return dates[::5]
+    raise ValueError(how)
+
+
 # ------------------------------------------------------------------ configurations of the oracle
 def window_kw(mode):
     """mode: None (window-free) or (L, S)"""
@@ -152,6 +170,8 @@ def make(name, mode, ymode=None, **extra):
             return QuantileDeltaMapping.for_precipitation(float(extra["censor_thr"]), **kw, **years_kw(ymode))
         if name == "QDM-pr-from_variable":
             return QuantileDeltaMapping.from_variable("pr", censoring_threshold=float(extra["censor_thr"]), **kw, **years_kw(ymode))
+        if name == "ECDFM-pr-censored":  # the censored-gamma precipitation model (Nelder-Mead fit) in a second debiaser family
+            return ECDFM.for_precipitation(model_type="censored", censoring_threshold=float(extra["censor_thr"]), **kw)
         if name == "CDFt-SSR":  # the precipitation default: stochastic singularity removal
             return CDFt(delta_shift="additive", SSR=True, **kw, **years_kw(ymode))
         if name.startswith("QM-parametric-"):
@@ -184,6 +204,10 @@ HAS_YEARS = {"QDM-absolute", "QDM-relative", "CDFt-additive", "CDFt-multiplicati
              "QDM-pr-from_variable"}
 QDM_PR = {"QDM-pr-for_precipitation", "QDM-pr-from_variable"}  # censored-gamma fit by Nelder-Mead: a few windows only
 ITER_FIT = {"QM-gamma-multiplicative", "QM-gamma-no_detrending", "QM-beta-additive", "QM-sfcWind", "QM-hurs"}  # MLE by optimiser
+# configurations judged by the large / sparse cases only (not in ORACLE_CONFIGS: the regular cases keep their PRNG stream)
+EXTRA_CONFIGS = ["ECDFM-pr-censored"]
+CENSORED_PR = QDM_PR | set(EXTRA_CONFIGS)  # data at or just above an explicit censoring threshold (recipe field `censor_thr`)
+MULT |= set(EXTRA_CONFIGS)
 FLUX = [1e-8, 1e-6, 1e-9, 1e-5]  # pr in kg m-2 s-1 has this magnitude
 
 
@@ -254,6 +278,111 @@ def gen_case(rng, name, tier, j=1):
     return rec
 
 
+# ---- quantifier "cm_future series of ANY LENGTH ... with and without running windows": the regular cases above are daily
+# whole-year records, so every (day-of-year window x year window) chunk of cm_future holds >= 28 values and a window-free
+# future >= 2.  The sparse cases cover the other end: a chunk / a whole future of exactly ONE value or of a handful (a single
+# time step; a few consecutive steps; monthly / dekadal / weekly / pentad records with a single future year or with year
+# windows of one year), while the calibration sample (obs == cm_hist) stays well populated (>= 8 years of the same axis).
+# Guards (DESIGN 4, C03): * ECDFM is the one method that FITS A DISTRIBUTION TO cm_future: its chunks get at least
+# SPARSE_MIN_FIT values (the normal fit of a one-value sample has scale 0, its cdf is undefined -- not a fixed-point matter);
+# * DeltaChange calibrates on the model series (cm_hist == cm_future, played by `F`): a short model series is window-free
+# only ("every calibration window is non-empty"); * day-of-year windows on a thin axis have step < length, so that the
+# calibration window around every adjusted day contains the obs record of the same date (day of year +-1 across leap years).
+SPARSE_FITS_FUTURE = {"ECDFM", "ECDFM-pr-censored"}
+SPARSE_MIN_FIT = 8
+SPARSE_SHAPES = ["one-step", "one-year", "few-steps", "year-chunks"]
+
+
+def gen_sparse_case(rng, name, tier, j=0):
+    """a recipe with a thin time axis and / or a very short future (see the comment above); same schema as `gen_case`.
+    `j` selects the shape (callers rotate it so that every shape occurs for every family of debiasers)"""
+    shape = SPARSE_SHAPES[j % 4]
+    if shape == "year-chunks" and name not in HAS_YEARS:
+        shape = "one-year"
+    short = shape in ("one-step", "few-steps")
+    windowed = not short or rng.random() < 0.5
+    if name.startswith("DC-") and short:
+        windowed = False
+    sampling = rng.choice(SAMPLINGS + [None]) if short else rng.choice(SAMPLINGS + ["monthly", "monthly"])
+    mode = None
+    if windowed:
+        L = rng.choice([31, 31, 61, 91]) if sampling == "monthly" else rng.choice([31, 61, 91])
+        steps = [1, 7, 15, 31, 61] if (short or sampling == "monthly") else [7, 15, 31, 61]  # step 1 on a denser axis: 365 windows x year windows
+        if name in ITER_FIT or name in CENSORED_PR:
+            steps = [15, 31, 61]  # an optimiser fit (or two) per window
+        mode = [L, rng.choice([st for st in steps if st < L])]
+    rec = dict(config=name, mode=mode, ymode=None, nyO=rng.randint(8, 14), nyF=1, y0=rng.randint(1950, 1985), yF=rng.randint(2001, 2080),
+               np_seed=rng.randint(0, 2**31 - 1), short=False, sd_ratio=rng.choice([0.5, 1.0, 2.0]), shift=rng.choice([-6.0, -1.0, 2.0, 10.0]),
+               trend=0.0, sparse=shape, sampling=sampling, kinds=[probes.pick_kind(rng) for _ in range(3)])
+    if (name in ITER_FIT or name in CENSORED_PR) and sampling == "monthly":
+        rec["nyO"] = rng.randint(20, 30)  # an optimiser fit per window: enough values in it
+    if shape == "one-step":
+        rec["fut_steps"], rec["fut_start"] = 1, rng.randint(0, 400)
+    elif shape == "few-steps":
+        rec["fut_steps"], rec["fut_start"] = rng.randint(2, 5), rng.randint(0, 400)
+    elif shape == "year-chunks":
+        rec["nyF"] = rng.randint(3, 8)
+        rec["ymode"] = rng.choice([[1, 1], [1, 1], [3, 1], [3, 3]])
+    if name in HAS_YEARS and shape != "year-chunks" and rng.random() < 0.5:
+        rec["ymode"] = rng.choice([[17, 9], [5, 3], [1, 1]])
+    if name in SPARSE_FITS_FUTURE:
+        if short:
+            rec["fut_steps"] = rng.randint(SPARSE_MIN_FIT, 2 * SPARSE_MIN_FIT)
+            if sampling:
+                rec["mode"] = None
+        else:  # a thin axis: a longer window / more future years, so that every window holds SPARSE_MIN_FIT values
+            rec["nyF"] = rng.randint(6, 9)
+            if rec["mode"]:
+                rec["mode"] = [91, rec["mode"][1]] if sampling != "monthly" else None
+    if name.endswith("-flux"):
+        rec["flux"] = FLUX[j % len(FLUX)]
+    if name in CENSORED_PR:
+        rec["censor_thr"] = rng.choice([0.125, 0.5, 1.0])
+        rec["at_threshold"] = rng.choice([0, 1])
+    if name in ("ECDFM", "QDM-absolute") or name.startswith("QM-parametric"):
+        rec["t"] = [1e-3, 1e-6, 1e-10, 1e-2][j % 4]
+    if name == "QDM-relative":
+        rec["censor"] = j % 2 == 0
+        rec["at_threshold"] = 1 if rec["censor"] else 0
+    return rec
+
+
+# ---- quantifier "series of ANY LENGTH": the other end.  The regular cases fit at most 8 years of daily data at once (<= 2922
+# values; a day-of-year window of <= 91 days x <= 4 years) -- only CDFt had window-free samples of > 10^4 values (LARGE_AT).
+# The large cases give EVERY configuration (mean shifts, closed-form and optimiser fits, the censored / hurdle precipitation
+# models, empirical quantile pipelines) single fits of 5 000 ... 22 000 values: window-free records of 14 - 60 years, or
+# 45 - 60 years seen through a day-of-year window of 121 / 181 days, with cm_hist == obs.  A size-dependent branch of any
+# estimator (subsampling, binning, capped grids, a different algorithm for long samples) shows here and nowhere else.
+def gen_large_case(rng, name, tier, j=0):
+    """a recipe whose single fits see thousands of values; same schema as `gen_case`"""
+    windowed = rng.random() < 0.25
+    if windowed:
+        mode = [rng.choice([121, 181]), rng.choice([61, 91])]
+        nyO, nyF = rng.randint(45, 60), rng.randint(2, 6)
+    else:
+        mode = None
+        nyO = rng.choice([rng.randint(14, 20), rng.randint(29, 32), rng.randint(40, 60)])
+        nyF = rng.choice([rng.randint(3, 12), rng.randint(14, 20), rng.randint(29, 40)])
+    ymode = rng.choice([None, [17, 9], [9, 9], [5, 3]]) if name in HAS_YEARS else None
+    if windowed and nyF < 6:
+        ymode = None
+    rec = dict(config=name, mode=mode, ymode=ymode, nyO=nyO, nyF=nyF, y0=rng.randint(1900, 1940), yF=rng.randint(2001, 2040),
+               np_seed=rng.randint(0, 2**31 - 1), short=False, sd_ratio=rng.choice([0.5, 1.0, 2.0]), shift=rng.choice([-6.0, -1.0, 2.0, 10.0]),
+               trend=rng.choice([0.0, 0.5]), large=True, kinds=[probes.pick_kind(rng) for _ in range(3)])
+    if name.endswith("-flux"):
+        rec["flux"] = FLUX[j % len(FLUX)]
+    if name in CENSORED_PR:
+        rec["censor_thr"] = rng.choice([0.125, 0.5, 1.0])
+        rec["at_threshold"] = rng.choice([0, 1, 3])
+    if name in ("ECDFM", "QDM-absolute") or name.startswith("QM-parametric"):
+        rec["t"] = [1e-3, 1e-6, 1e-10, 1e-2][j % 4]
+        rec["outliers"] = rng.choice([1, 2, 5])
+    if name == "QDM-relative":
+        rec["censor"] = j % 2 == 0
+        rec["at_threshold"] = rng.choice([1, 3, 10]) if rec["censor"] else 0
+    return rec
+
+
 def build(rec):
     """-> dict(obs, F, dO, dF, extra) for a recipe"""
     nprs = np.random.RandomState(rec["np_seed"])
@@ -267,6 +396,12 @@ def build(rec):
     if rec.get("short"):  # window-free: any lengths, down to 2
         nO, nF = int(nprs.randint(2, 40)), int(nprs.randint(2, 40))
         dO, dF = dO[:nO], dF[:nF]
+    if rec.get("sampling"):  # thin time axes (gen_sparse_case): monthly / dekadal / weekly / pentad records instead of daily ones
+        dO, dF = thin(dO, rec["sampling"]), thin(dF, rec["sampling"])
+    if rec.get("fut_steps"):  # a future of `fut_steps` consecutive steps (1 = a single time step), anywhere in the period
+        k = int(rec["fut_steps"])
+        a = int(rec.get("fut_start", 0)) % max(1, dF.size - k + 1)
+        dF = dF[a:a + k]
     extra = {}
     if rec["config"] in MULT:
         if rec["config"] == "QDM-relative":
@@ -279,7 +414,7 @@ def build(rec):
                 # threshold inside the debiaser is not a matter of rounding
                 F[nprs.choice(F.size, size=k_at, replace=False)] = thr
             extra = dict(censor=rec.get("censor", False), censor_thr=thr)
-        elif rec["config"] in QDM_PR:
+        elif rec["config"] in CENSORED_PR:
             # wet-day amounts at or just above the censoring threshold: the fitted censored gamma has mass below it
             thr = float(rec["censor_thr"])
             obs = thr + nprs.gamma(0.9, 5.0, dO.size) + 1e-3
@@ -423,8 +558,11 @@ def run_case(rec):
         tw = float(tol[worst]) if isinstance(tol, np.ndarray) else tol
         nan = int((~np.isfinite(out)).sum())
         how = (f"{nan} steps of the output are NaN / unassigned (first: step {int(np.where(~np.isfinite(out))[0][0])}); " if nan else "")
+        if rec.get("large"):
+            how = f"large sample ({obs.size} values of obs, {F.size} of cm_future); " + how
+        thin_axis = f", {rec['sparse']} future of {F.size} steps on a {rec.get('sampling') or 'daily'} axis" if rec.get("sparse") else ""
         return (f"{name} (windows {mode}, year windows {ymode}, year gaps {rec.get('year_gaps')}, cdf_threshold {rec.get('t')}, time encodings "
-                f"{rec.get('kinds')}): {how}with cm_hist == obs the output differs from {what} by {err[worst]:.3g} "
+                f"{rec.get('kinds')}{thin_axis}): {how}with cm_hist == obs the output differs from {what} by {err[worst]:.3g} "
                 f"at step {worst} ({out[worst]!r} vs {want[worst]!r}; tolerance {tw:.3g}); {int((excess > 0).sum())} of {want.size} steps differ"), info
     return None, info
 
@@ -617,6 +755,52 @@ def run(tier, res, force_search=False):
             problems.append((p, rec))
         elif info.get("calendar") and not any(r.get("config") == "calendar" for _, r in problems):
             problems.append(("time axis handed to the debiaser: " + info["calendar"], dict(rec, config="calendar", case_config=name)))
+    # ... and on thin time axes / very short futures (a chunk of cm_future of exactly one value, ...): `gen_sparse_case`.
+    # Its own PRNG stream, so that the regular cases above are the same as before for a given VERIF_SEED.
+    import time as _time
+
+    t_sp = _time.time()
+    rng_sp = random.Random(C.seed() * 7919 + 104)
+    n_sp = (2 if tier == "quick" else 8) * (3 if (force_search or not lean_ok or mism) else 1)
+    one_value_chunks = n_sparse_run = 0
+    for r in range(n_sp):
+        for i, name in enumerate(ORACLE_CONFIGS + EXTRA_CONFIGS):
+            if tier == "quick" and r % 2 == 1 and (name in ITER_FIT or name in CENSORED_PR or name == "QDM-relative"):
+                continue  # two optimiser fits per window: every other round only (quick wall time)
+            rec = gen_sparse_case(rng_sp, name, tier, r + i + C.seed())
+            try:
+                p, info = run_case(rec)
+            except Exception as ex:  # noqa: BLE001  (an exception of the code under test is a violation carrying the recipe)
+                p, info = f"{name} (sparse case {rec['sparse']}, sampling {rec['sampling']}, windows {rec['mode']}, year windows {rec['ymode']}): {type(ex).__name__}: {str(ex)[:200]}", {}
+            skipped += info.get("skipped_clipped", 0)
+            compared += info.get("n_fut", 0)
+            one_value_chunks += rec["sparse"] == "one-step"
+            n_sparse_run += 1
+            res.count(("sparse", name, rec["sparse"], str(rec["sampling"]), str(rec["mode"]), str(rec["ymode"])), True,
+                      sample={k2: rec[k2] for k2 in ("config", "sparse", "sampling", "mode", "ymode", "nyO", "nyF")})
+            if p:
+                problems.append((p, rec))
+    # ... and with single fits of 5 000 - 22 000 values for every configuration: `gen_large_case` (own PRNG stream)
+    t_lg = _time.time()
+    rng_lg = random.Random(C.seed() * 7919 + 105)
+    n_lg = (1 if tier == "quick" else 4) * (3 if (force_search or not lean_ok or mism) else 1)
+    for r in range(n_lg):
+        for i, name in enumerate(ORACLE_CONFIGS + EXTRA_CONFIGS):
+            rec = gen_large_case(rng_lg, name, tier, r + i + C.seed())
+            try:
+                p, info = run_case(rec)
+            except Exception as ex:  # noqa: BLE001
+                p, info = f"{name} (large sample, windows {rec['mode']}, year windows {rec['ymode']}, {rec['nyO']} years of obs): {type(ex).__name__}: {str(ex)[:200]}", {}
+            skipped += info.get("skipped_clipped", 0)
+            compared += info.get("n_fut", 0)
+            res.count(("large", name, str(rec["mode"]), str(rec["ymode"]), info.get("n_obs", 0) // 2000, info.get("n_fut", 0) // 2000), True,
+                      sample={k2: rec[k2] for k2 in ("config", "mode", "ymode", "nyO", "nyF")})
+            if p:
+                problems.append((p, rec))
+    res.extra["oracle_large"] = {"cases": n_lg * len(ORACLE_CONFIGS + EXTRA_CONFIGS), "wall_s": round(_time.time() - t_lg, 2),
+                                 "what": "every configuration with single fits of 5 000 - 22 000 values (14 - 60 years window-free, or 45 - 60 years in a 121 / 181 day window)"}
+    res.extra["oracle_sparse"] = {"cases": n_sparse_run, "single_step_futures": one_value_chunks, "wall_s": round(_time.time() - t_sp, 2),
+                                  "what": "thin time axes (monthly / dekad / weekly / pentad) and futures of 1-5 steps: chunks of cm_future down to ONE value"}
     res.extra["oracle"] = {"cases": n_or, "steps_compared": compared, "qm_steps_skipped_as_clipped": skipped, "tolerance": "1e-8*max(1,|values|)"}
     try:
         other_pairs_note(rng, res)
@@ -667,6 +851,9 @@ def replay(data):
         utils_inverse_large(_r.Random(0), "thorough", C.Result(PROP, "quick"), probs)
         print("replay utils ecdf/iecdf ->", probs[0][0] if probs else "property holds")
         return 1 if probs else 0
-    p, info = run_case(rec)
+    try:
+        p, info = run_case(rec)
+    except Exception as ex:  # noqa: BLE001  (the recorded problem of such an input IS the exception of the code under test)
+        p, info = f"{type(ex).__name__}: {str(ex)[:200]}", {}
     print("replay", rec["config"], "->", p or "property holds on this input", info)
     return 1 if p else 0
